@@ -132,6 +132,19 @@ def write_real_tree(root, rnd):
     open(os.path.join(sp, "pytest_cyc", "extra.py"), "w").write('pytest_plugins = ["pytest_cyc.plugin", "pytest_cyc.extra"]\n' + fx % "cyc_c")
     open(os.path.join(sp, "pytest_cyc", "helpers.py"), "w").write("from .plugin import *\nfrom .helpers import *\n" + fx % "cyc_b")
     open(os.path.join(sp, "pytest_cyc-1.0.dist-info", "entry_points.txt"), "w").write("[pytest11]\ncyc = pytest_cyc.plugin\n")
+    # a second entry-point plugin whose modules are reached through a SYMLINKED package directory
+    # (`compat` -> `_impl`) and import each other / themselves: the paths the import resolution
+    # yields are not the canonical ones the plugin bookkeeping is keyed by
+    os.makedirs(os.path.join(sp, "pytest_lnk", "_impl"), exist_ok=True)
+    os.makedirs(os.path.join(sp, "pytest_lnk-2.0.dist-info"), exist_ok=True)
+    open(os.path.join(sp, "pytest_lnk", "__init__.py"), "w").write("")
+    open(os.path.join(sp, "pytest_lnk", "_impl", "__init__.py"), "w").write("")
+    open(os.path.join(sp, "pytest_lnk", "_impl", "base.py"), "w").write("from pytest_lnk.compat.extra import *\nfrom .base import *\n" + fx % "lnk_a")
+    open(os.path.join(sp, "pytest_lnk", "_impl", "extra.py"), "w").write('from pytest_lnk.compat.base import *\npytest_plugins = ["pytest_lnk.compat.base"]\n' + fx % "lnk_b")
+    if not os.path.lexists(os.path.join(sp, "pytest_lnk", "compat")):
+        os.symlink("_impl", os.path.join(sp, "pytest_lnk", "compat"))
+    open(os.path.join(sp, "pytest_lnk", "plugin.py"), "w").write("from .compat.base import *\n" + fx % "lnk_c")
+    open(os.path.join(sp, "pytest_lnk-2.0.dist-info", "entry_points.txt"), "w").write("[pytest11]\nlnk = pytest_lnk.plugin\n")
     os.makedirs(os.path.join(root, "plugcyc"), exist_ok=True)
     open(os.path.join(root, "plugcyc", "conftest.py"), "w").write('pytest_plugins = ["plug_a"]\n')
     open(os.path.join(root, "plugcyc", "plug_a.py"), "w").write('pytest_plugins = ["plug_b"]\nfrom plug_b import *\n' + fx % "pa")
